@@ -31,10 +31,10 @@ pub fn single_strategy() -> impl Strategy<Value = Single> {
             let target_len = match (len_choice, spec.min, spec.max) {
                 (0, _, Some(m)) => m.saturating_sub(1),
                 (1, _, Some(m)) => m,
-                (2, _, Some(m)) => m + 1,
+                (2, _, Some(m)) => m.saturating_add(1),
                 (3, Some(m), _) => m.saturating_sub(1),
                 (4, Some(m), _) => m,
-                (5, Some(m), _) => m + 1,
+                (5, Some(m), _) => m.saturating_add(1),
                 _ => chars.len(),
             }
             .min(320);
@@ -116,7 +116,8 @@ pub fn check_single(case: &Single, obs: &mut Obs) -> CaseResult {
     obs.class_if(case.spec.align == Some(Align::Right), "right-align");
     obs.class_if(case.pieces.len() > 1, "multi-piece");
     if let Some(m) = case.spec.max {
-        obs.class(format!("len-M={}", (tn as i64 - m as i64).clamp(-2, 2)));
+        obs.class(format!("len-M={}", (tn as i128 - m as i128).clamp(-2, 2)));
+        obs.class_if(m > u32::MAX as usize, "max-width-beyond-32-bits");
     }
     Ok(())
 }
